@@ -24,8 +24,8 @@ import (
 func main() { vlib.Run("C39", run) }
 
 func run(c *vlib.Ctx) {
-	c.Rule("trees of depth <= 3 with 1-14 nodes; unique entry names per directory from a hostile pool (spaces, quotes, %, %41, +, ;, =, &, ?, #, backslash, tab, CR, LF, NUL, DEL, 0xff, unicode, leading/trailing blanks, dots, 300 bytes, names that are prefixes of a sibling); files of 0..64 KiB (source readers: bytes.Reader, chunked, and data-together-with-EOF), symlinks, directories; metadata: mode 0 / perms / setuid,setgid,sticky / type bits / raw 07777, mtime unset / epoch / seconds / nanoseconds / negative / far future; the multipart stream is pulled with random read sizes. Strata: form (every combination), form-clean (never a non-zero mode with an unset mtime: avoids the known epoch finding), mixed (form=false: names, kinds, bytes, targets only). distinct = FNV of flags + node list; non-trivial = tree has a directory inside a directory with a child, a name that needs escaping, a non-empty file and (form strata) a node with a mode and a node with a nanosecond mtime")
-	q := c.N(1000, 30000)
+	c.Rule("trees of depth <= 3 with 1-16 nodes; unique entry names per directory from a hostile pool (spaces, quotes, %, %41, +, ;, =, &, ?, #, backslash, tab, CR, LF, NUL, DEL, 0xff, unicode, leading/trailing blanks, dots, 300 bytes, names that are prefixes of a sibling); files of 0..64 KiB (source readers: bytes.Reader, chunked, and data-together-with-EOF), symlinks, directories; metadata: mode 0 / perms / setuid,setgid,sticky / type bits / raw 07777, mtime unset / epoch / seconds / nanoseconds / negative / far future; the multipart stream is pulled with random read sizes. Strata: form (every combination), form-clean (never a non-zero mode with an unset mtime: avoids the known epoch finding), mixed (form=false: names, kinds, bytes, targets only). distinct = FNV of flags + node list; non-trivial = tree has a directory inside a directory with a child, a name that needs escaping, a non-empty file and (form strata) a node with a mode and a node with a nanosecond mtime")
+	q := c.N(2500, 40000)
 	c.Cases("form", q*4/10, func(k *vlib.Case) { oneTree(k, true, false) })
 	c.Cases("form-clean", q*4/10, func(k *vlib.Case) { oneTree(k, true, true) })
 	c.Cases("mixed", q*2/10, func(k *vlib.Case) { oneTree(k, false, false) })
@@ -542,7 +542,7 @@ func (n *node) origMode() os.FileMode {
 func oneTree(k *vlib.Case, form, clean bool) {
 	r := k.R
 	root := &node{kind: kDir}
-	budget := r.Range(1, 14)
+	budget := r.Range(1, 16)
 	genTree(r, root, 1, &budget, form, clean)
 	rawAbs := r.Chance(1, 6)
 	if rawAbs { // legacy raw header: only used with header-safe abspaths
